@@ -42,9 +42,10 @@ def oracle(ck, sc, rec, label):
         # ---- callbacks exactly once, in order, after both phases; training before validation
         first_cb = next((i for i, e in enumerate(ev) if e[0] == 'cb'), len(ev))
         body, tail = ev[:first_cb], ev[first_cb:]
-        if tail != [('cb', i) for i in range(ncbs)]:
-            ck.fail('callbacks/once-in-order', 'callbacks of one epoch did not run exactly once each, in the given order, after both phases',
-                    inp, expected=[('cb', i) for i in range(ncbs)], actual=tail)
+        want_tail = [('cb', i) for i in fits[fi]['cb_ids']]
+        if tail != want_tail:
+            ck.fail('callbacks/once-in-order', 'callbacks of one epoch did not run exactly once per list entry, in the given order, after both phases',
+                    inp, expected=want_tail, actual=tail)
         phases = [phase_of(e) for e in body]
         if 'valid' in phases and 'train' in phases[phases.index('valid'):]:
             ck.fail('callbacks/phase-order', 'a training-phase event followed a validation-phase event inside one epoch', inp, actual=body)
@@ -125,7 +126,11 @@ def regression_scenarios():
     f11 = dict(base, opt={'kind': 'sgd', 'lr': 0.25},
                ops=[{'op': 'fit', 'max_epochs': 3, 'cbs': rec_cb}, {'op': 'fit', 'max_epochs': 0, 'cbs': rec_cb}])
     f6 = dict(base, opt={'kind': 'script', 'lr': 0.25, 'counts': [2, 3]}, ops=[{'op': 'fit', 'max_epochs': 2, 'cbs': rec_cb}])
-    return [('fixed-F11-fit0', f11, True), ('fixed-F6-closure-metric', f6, True)]
+    dup = dict(base, opt={'kind': 'sgd', 'lr': 0.25},
+               ops=[{'op': 'fit', 'max_epochs': 3, 'cbs': [[], [{'when': 2, 'act': {'kind': 'set_nb', 'phase': 'train', 'n': 2}}]] + rec_cb,
+                     'cb_order': [0, 1, 0, 2]},
+                    {'op': 'fit', 'max_epochs': 2, 'cbs': [[]] + rec_cb, 'cb_order': [0, 0, 1], 'cb_container': 'tuple'}])
+    return [('fixed-F11-fit0', f11, True), ('fixed-F6-closure-metric', f6, True), ('repeated-callback-object', dup, True)]
 
 
 def main():
@@ -157,7 +162,7 @@ def main():
             camp.add(f'trace#{i}', sc, exact=False)
         else:
             sc = T.gen_scenario(r, opt_kinds=('sgd', 'script', 'sgd'), cb_actions=('stop', 'set_nb', 'stop', 'set_nb', 'set_opt'),
-                                between_actions=('set_nb',) if i % 4 == 0 else (), lids=(0, 1, 0, 3))
+                                between_actions=('set_nb',) if i % 4 == 0 else (), lids=(0, 1, 0, 3), dup_callbacks=(i % 3 == 1))
             camp.add(f'exact#{i}', sc, exact=True)
     camp.correspond()
     if ck.broken and not [f for f in ck.failures]:
